@@ -46,6 +46,7 @@ struct Req {                            // a transition request as the harness k
 	bool has = false;
 	uint8_t origin = SUT_INVALID, dest = SUT_INVALID;
 	bool has_payload = false;
+	bool from_task = false;             // issued by a plan task that fired
 	uint8_t payload[SUT_MAX_PAYLOAD];
 	Req() { memset(payload, 0, sizeof(payload)); }
 	void clear() { has = false; }
@@ -60,6 +61,7 @@ struct Tracked {                        // reconstructed from what was observed 
 	bool task_added = false;            // since activation
 	uint8_t mayS[32], mayF[32], mustS[32];
 	Req prev, prev_alt; bool prev_known = true, prev_alt_ok = false;   // expected previousTransition()
+	Req last_consumed;                  // the request the last processing round took out of the slot
 	bool logger = false;
 	std::set<uint64_t> fired_keys;      // payload identities of tasks that have fired (C08: once only)
 	Tracked() { memset(mayS, 0, 32); memset(mayF, 0, 32); memset(mustS, 0, 32); }
